@@ -245,7 +245,7 @@ func checkInsertion(src []byte, v px.Ver, in insertion) insertionResult {
 func TestInsertedMalformedStatement(t *testing.T) {
 	harness.Check(t, "inserted-statement", 25000, 800000, func(rt *rapid.T) {
 		v := rapid.SampledFrom(px.KeyVersions).Draw(rt, "version")
-		o := progs.Options(v)
+		o := progs.StructuralOptions(v)
 		o.NoHTML, o.NoHalt = true, true
 		c := progs.Draw(rt, v, o, 1, 5)
 		lay := c.G.Render(c.Root, progs.Policy(rt, phpgen.PolicySpace, nil))
